@@ -241,22 +241,24 @@ def handleYaml (j : Json) : Except String Verdict := do
   let mDict := fiber2dict d o.tree
   let mRt := dict2fiber d mDict
   let mDictEq := match mRt with
-    | some r => eqB 0 dflt d r o.tree && eqB dflt 0 d o.tree r
+    -- the harness rebuilds with `Fiber.dict2fiber(dict, default=<the original's default>)`
+    | some r => eqB dflt dflt d r o.tree && eqB dflt dflt d o.tree r
     | none => false
-  let rep : TRep YCoord Int d := { rankIds := o.rankIds, shape := o.shape, name := o.name, root := o.tree }
-  let mLoaded : Option (Loaded d) :=
+  let rep : TRep YCoord Int d :=
+    { rankIds := o.rankIds, shape := o.shape, name := o.name, root := o.tree, dflt := dflt }
+  let mLoadedD : Option (Loaded d × Int) :=
     if isTensor then
-      (tensorYamlRoundtrip YCoord.plain rep).map
-        (fun r => { tree := r.root, rankIds := r.rankIds, shape := r.shape, name := r.name })
+      (tensorYamlRoundtrip (0 : Int) rep).map
+        (fun r => ({ tree := r.root, rankIds := r.rankIds, shape := r.shape, name := r.name }, r.dflt))
     else
       match d with
       | 0 => none
-      | d' + 1 => (fiberYamlRoundtrip YCoord.plain d' o.tree).map
-                    (fun r => { tree := r, rankIds := [], shape := [], name := "" })
-  let ldflt := loadedLeafDefault (0 : Int) isTensor d dflt
-  let (mEq, mEqRev) := match mLoaded with
-    | some l => (decide (l.rankIds = o.rankIds) && eqB ldflt dflt d l.tree o.tree,
-                 decide (o.rankIds = l.rankIds) && eqB dflt ldflt d o.tree l.tree)
+      | d' + 1 => (fiberYamlRoundtrip d' o.tree).map
+                    (fun r => ({ tree := r, rankIds := [], shape := [], name := "" }, dflt))
+  let mLoaded := mLoadedD.map (·.1)
+  let (mEq, mEqRev) := match mLoadedD with
+    | some (l, ldflt) => (decide (l.rankIds = o.rankIds) && eqB ldflt dflt d l.tree o.tree,
+                          decide (o.rankIds = l.rankIds) && eqB dflt ldflt d o.tree l.tree)
     | none => (false, false)
   let agree := optBeq (yDictBeq d) iDict (some mDict) && optBeq (treeBeq d) iRt mRt &&
                (iDictEq == mDictEq) && optBeq (loadedBeq d) iLoaded mLoaded &&
